@@ -38,6 +38,10 @@ static const char *const T_C01[] = {
 	"G0 | x0 x0 y0",
 	"G0 | x0 x0 | y0",
 	"G0 C1>0 | x1 x1 y1",
+	// a sync reader inside a concurrent queue while a barrier arrives from another thread (the reader's leave must re-drive the queue)
+	"hold; C0 | s0 | b0",
+	"hold; C0 | s0 s0 | b0 a0",
+	"hold; N0 | s0 | a0 b0",
 	0
 };
 QP_HARNESS(h_q01, "q01", "C01", T_C01, 0);
@@ -172,6 +176,9 @@ static const char *const T_C04[] = {
 	// a sync reader queued as a waiter behind a running barrier, dequeued by the async drainer, with the next barrier right behind it
 	"slow; C0 | b0 s0 | b0",
 	"slow; C0 | b0 a0 s0 | b0",
+	"hold; C0 | s0 | b0",
+	"hold; C0 | s0 | a0 b0",
+	"hold; C0 | w0 | b0 b0",
 	0
 };
 QP_HARNESS(h_q04, "q04", "C04", T_C04, 0);
